@@ -45,7 +45,24 @@ def adsr_text():
     return _arr("ATT_REF", att, "f64") + _arr("DEC_REF", dec, "f64")
 
 
+def glide_text():
+    """Contract of tan on [0, 0.8] (covers pi/4 with margin), 256 segments.
+    tan is convex there: the tangent at the left node is a lower bound, the chord an upper bound.
+    TAN_X0[i] left node, TAN_T0[i] = tan(node), TAN_SLO[i] = sec^2(node), TAN_SHI[i] = chord slope."""
+    n = 256
+    xmax = 0.8
+    h = xmax / n
+    x0 = [i * h for i in range(n)]
+    t0 = [math.tan(x) for x in x0]
+    slo = [1.0 / math.cos(x) ** 2 for x in x0]
+    shi = [(math.tan(x + h) - math.tan(x)) / h for x in x0]
+    out = "pub(crate) const TAN_N: usize = %d;\npub(crate) const TAN_XMAX: f32 = %r;\npub(crate) const TAN_INV_H: f32 = %r;\n" % (n, xmax, 1.0 / h)
+    return out + _arr("TAN_X0", x0) + _arr("TAN_T0", t0) + _arr("TAN_SLO", slo) + _arr("TAN_SHI", shi)
+
+
 def text_for(mod):
+    if mod == "glide_processor":
+        return glide_text()
     if mod == "lfo":
         return lfo_text()
     if mod == "adsr":
